@@ -362,3 +362,70 @@ def _sort_mod(V):
 
 
 EXT['modfn:sort.Slice'] = True
+
+
+# ---------------------------------------------------------------------- bufio.Reader as an abstract rune stream (C02)
+# ghost per reader r: rd_remaining[r] = number of runes ReadRune will still deliver; rd_canunread[r] = last call was a
+# successful ReadRune. A failing ReadRune (EOF or any error) consumes nothing; UnreadRune gives back at most one rune.
+RD = 'bufio.Reader'
+
+
+def rd_keys():
+    return ('ghost', 'rd_remaining', z3.ArraySort(I, I), RD), ('ghost', 'rd_canunread', z3.ArraySort(I, z3.BoolSort()), RD)
+
+
+@ext('(*bufio.Reader).ReadRune')
+def _readrune(X, ins, argv):
+    w = X.w
+    r = argv[0]
+    X.nonnil(r, ins.get('pos', ''), 'method call on nil *bufio.Reader')
+    kr, kc = rd_keys()
+    rem = X.heap.get(kr)
+    cu = X.heap.get(kc)
+    # remaining(r) counts the runes that will still be delivered: the call succeeds exactly while it is positive
+    X.hyp(rem[r] >= 0)
+    ok = rem[r] > 0
+    ch = w.fresh('rune', I)
+    X.hyp(z3.And(ch >= 0, ch <= 0x10FFFF))
+    size = w.fresh('runesize', I)
+    X.hyp(z3.And(size >= 1, size <= 4))
+    e = new_error(X)
+    X.heap.set(kr, z3.Store(rem, r, z3.If(ok, rem[r] - 1, rem[r])))
+    X.heap.set(kc, z3.Store(cu, r, ok))
+    return [z3.If(ok, ch, z3.IntVal(0)), z3.If(ok, size, z3.IntVal(0)), z3.If(ok, w.nil_iface(), e)]
+
+
+@ext('(*bufio.Reader).UnreadRune')
+def _unreadrune(X, ins, argv):
+    w = X.w
+    r = argv[0]
+    X.nonnil(r, ins.get('pos', ''), 'method call on nil *bufio.Reader')
+    kr, kc = rd_keys()
+    rem = X.heap.get(kr)
+    cu = X.heap.get(kc)
+    can = cu[r]
+    e = new_error(X)
+    X.heap.set(kr, z3.Store(rem, r, z3.If(can, rem[r] + 1, rem[r])))
+    X.heap.set(kc, z3.Store(cu, r, z3.BoolVal(False)))
+    return [z3.If(can, w.nil_iface(), e)]
+
+
+EXT['mod:(*bufio.Reader).ReadRune'] = lambda V: set(rd_keys()) | {('alloc', 'iface')}
+EXT['mod:(*bufio.Reader).UnreadRune'] = lambda V: set(rd_keys()) | {('alloc', 'iface')}
+EXT['ghostspace:' + RD] = rd_keys
+
+
+@ext('github.com/evolbioinfo/goalign/align.NewAlign', 'github.com/evolbioinfo/goalign/align.NewSeqBag')
+def _newalign(X, ins, argv):
+    w = X.w
+    tk = ins['type']
+    v = w.fresh('align', w.sort(tk))
+    from .symex import well_typed
+    for f in well_typed(X.V, X.heap, v, tk):
+        X.hyp(f)
+    # constructors of goalign return a non-nil object (trusted)
+    if w.prog.kind(tk) == 'iface':
+        X.hyp(w.Iface.tag(v) > 0)
+    else:
+        X.hyp(v != 0)
+    return [v]
